@@ -80,6 +80,10 @@ class GuardIR:
     #    ``children`` key rather than inside ``params``; the emitter then has
     #    to write them out, since ``params`` alone does not carry them.
     inline_children: bool = False
+    # 📝 True for the bare-string form (``"guard": "isReady"``), which the
+    #    engine always treats as a user predicate -- even when the string
+    #    happens to be ``and``, ``or`` or ``not``.
+    bare: bool = dataclasses.field(default=False, compare=False)
 
     @property
     def is_composite(self) -> bool:
@@ -102,7 +106,7 @@ class GuardIR:
                 out.extend(child.leaf_names())
             return tuple(out)
         # 📝 A childless composite operator has nothing to implement.
-        if self.type in _COMPOSITE_OPERATORS:
+        if self.type in _COMPOSITE_OPERATORS and not self.bare:
             return ()
         # 📍 `stateIn` is answered by the engine from the active
         #    configuration. A generated stub would be registered as a user
@@ -282,7 +286,7 @@ def parse_guard(raw: Any) -> Optional[GuardIR]:
     if raw is None:
         return None
     if isinstance(raw, str):
-        return GuardIR(type=raw)
+        return GuardIR(type=raw, bare=True)
     if not isinstance(raw, dict):
         return None
 
